@@ -19,9 +19,9 @@ RULE = ("pairs of G-sim trace directories (identical / perturbed: events removed
 ASSUMPTIONS = ["well-formed regime (hv/wf.py); iteration reference hv/ref/load.py (C12)", "short names use the repository's shorten_name (trusted helper)",
                "iterations / ranks passed are valid for the traces (the API raises ValueError otherwise)"]
 PLAN = {"quick": {"shards": 16, "cases": 480, "timeout": 900}, "thorough": {"shards": 16, "cases": 5000, "timeout": 3400}}
-FLOORS = {"quick": {"distinct_nontrivial": 60, "names_judged": 3000, "proper_rank_subsets": 25, "self_comparisons": 25, "short_name_calls": 60, "identical_labels": 60, "ops_diff_called_first": 80,
+FLOORS = {"quick": {"distinct_nontrivial": 60, "names_judged": 3000, "proper_rank_subsets": 25, "self_comparisons": 25, "short_name_calls": 60, "identical_labels": 60, "ops_diff_called_first": 80, "fractional_duration_rows": 100,
                     "class_added": 200, "class_deleted": 200, "class_increased": 100, "class_decreased": 100, "class_unchanged": 500},
-          "thorough": {"distinct_nontrivial": 1200, "names_judged": 100000, "proper_rank_subsets": 500, "self_comparisons": 800, "short_name_calls": 1200, "identical_labels": 1000, "ops_diff_called_first": 1400,
+          "thorough": {"distinct_nontrivial": 1200, "names_judged": 100000, "proper_rank_subsets": 500, "self_comparisons": 800, "short_name_calls": 1200, "identical_labels": 1000, "ops_diff_called_first": 1400, "fractional_duration_rows": 2000,
                        "class_added": 4000, "class_deleted": 4000, "class_increased": 2000, "class_decreased": 2000, "class_unchanged": 10000}}
 
 
@@ -60,6 +60,13 @@ def gen_case(rnd, tier: str, i: Any) -> Dict[str, Any]:
             test[f"rank{r}.json"] = gen_sim.gen_trace(rnd, **p2)
         else:
             test[f"rank{r}.json"] = _perturb(rnd, tr, mode)
+    if rnd.random() < 0.25:
+        # integer timestamps with sub-microsecond durations on device activities (ns-resolution kernels)
+        for side in (control, test):
+            for tr in side.values():
+                for e in tr["traceEvents"]:
+                    if e.get("ph") == "X" and e.get("cat") in ("kernel", "gpu_memcpy", "gpu_memset") and rnd.random() < 0.6:
+                        e["dur"] = e["dur"] + rnd.choice([0.125, 0.25, 0.5, 0.75])
     steps = list(range(first_step, first_step + n_steps))
 
     def sel_ranks():
@@ -171,6 +178,8 @@ def run_case(case: Dict[str, Any], ctx: Any) -> core.CaseResult:
             got = (row[f"{lc.label}_counts"], row[f"{lt.label}_counts"], row[f"{lc.label}_total_duration"], row[f"{lt.label}_total_duration"],
                    row["diff_counts"], row["diff_duration"])
             exp = (cc[nm], tc[nm], cd[nm], td[nm], tc[nm] - cc[nm], td[nm] - cd[nm])
+            if any(isinstance(x, float) and x != int(x) for x in exp):
+                res.counters["fractional_duration_rows"] += 1
             if tuple(float(x) for x in got) != tuple(float(x) for x in exp):
                 nb += 1
                 if nb <= 3:
